@@ -94,6 +94,54 @@ Definition analyze_t (m : module) (incs : list ptree) : res module :=
   Ok {| m_name := m_name m; m_structs := sts2; m_hashkeys := m_hashkeys m; m_enums := m_enums m;
         m_consts := m_consts m; m_ifaces := ifs |}.
 
+(* ---------------- the imports of the generated code ---------------- *)
+(* checkDepTName records, for every user type of another module, the module FindTNameType found it in
+   (Struct.DependModule / Interface.DependModule): gen_go.go imports exactly those.  The generated code names a user
+   type by its (rewritten) TypeSt, "Mod::T" -> Mod.T: the modules it names are the prefixes of the qualified names
+   left in the analysed AST.  [IncludeProofs.imports_cover]: these coincide in the model. *)
+Fixpoint mod_prefix (l : bytes) : bytes :=
+  match l with
+  | [] => []
+  | a :: r => match r with
+              | [] => [a]
+              | b :: _ => if (a =? 58) && (b =? 58) then [] else a :: mod_prefix r
+              end
+  end.
+Fixpoint used_modules (v : vty) : list bytes :=
+  match v with
+  | VName s _ => if (count_cc s =? 0)%nat then [] else [mod_prefix s]
+  | VVec k => used_modules k
+  | VMap k w => used_modules k ++ used_modules w
+  | VArr k _ => used_modules k
+  | _ => []
+  end.
+(* what checkDepTName adds to DependModule for one type *)
+Fixpoint recorded_deps (m : module) (incs : list ptree) (v : vty) : list bytes :=
+  match v with
+  | VName s _ =>
+      let full := if (count_cc s =? 0)%nat then m_name m ++ colons ++ s else s in
+      match find_tname_t (PT m incs) full with
+      | Some (_, modn) => if beq modn (m_name m) then [] else [modn]
+      | None => []
+      end
+  | VVec k => recorded_deps m incs k
+  | VMap k w => recorded_deps m incs k ++ recorded_deps m incs w
+  | VArr k _ => recorded_deps m incs k
+  | _ => []
+  end.
+Definition struct_used (s : struct) : list bytes := flat_map (fun mb => used_modules (sm_ty mb)) (st_mb s).
+Definition iface_used (i : iface) : list bytes :=
+  flat_map (fun f => flat_map (fun a => used_modules (a_ty a)) (f_args f) ++ match f_ret f with Some t => used_modules t | None => [] end) (if_funcs i).
+Definition model_deps (m : module) : list (list bytes) := map struct_used (m_structs m) ++ map iface_used (m_ifaces m).
+Definition set_eqb (a b : list bytes) : bool :=
+  forallb (fun x => existsb (beq x) b) a && forallb (fun x => existsb (beq x) a) b.
+Fixpoint deps_eqb (a b : list (list bytes)) : bool :=
+  match a, b with
+  | [], [] => true
+  | x :: a', y :: b' => set_eqb x y && deps_eqb a' b'
+  | _, _ => false
+  end.
+
 (* ---------------- NewParse over the file system ---------------- *)
 Inductive fres := FOk (t : ptree) | FMulti | FErr | FFuel.
 
